@@ -4,7 +4,7 @@
 from rtlmc.model import Violation
 from rtlmc.explore import Spec
 from rtlmc import usbref as U
-from rtlmc.env.usb2_host import Host, PruneCollision, SE0, J
+from rtlmc.env.usb2_host import Host, PruneCollision, SE0, J, K
 from harness._usb2dev import build_device
 
 PROPERTY = "C08"
@@ -145,6 +145,11 @@ class AddrSpec(Spec):
         got_data = kind is not None and kind[0] == "data"
         if got_data and ack:
             host.send(cur, U.handshake(U.ACK), False)
+            # the statement fixes no cycle count between the host's ACK and the moment the new value is in force: leave the
+            # device a few idle cycles (still far inside any inter-transaction gap) before the registers are judged
+            host.idle(cur, 4)
+            host._cyc(cur, line_state=K)
+            host._cyc(cur, line_state=J)
         if ep == 1:
             if not got_data: raise Violation("bulk-in-with-data-not-answered-at-current-address", dict(action=a, resp=resp))
             if pending and ack: self.cover["foreign-ack-while-pending"] += 1
